@@ -98,6 +98,8 @@ structure IvInv1 (d : Dict) (strat : Strategy) (c : Composition) (iv : Interval)
   noBreak : ∀ i, iv.start < i → i < iv.stop → gapAt c i ≠ some Gap.brk
   selCont : ∀ x ∈ c.selections, x.intersectRange iv.start iv.stop = true → iv.start ≤ x.start ∧ x.stop ≤ iv.stop
   phraseSyl : iv.isPhrase = true → ∀ i, iv.start ≤ i → i < iv.stop → ∃ k, c.symbols[i]? = some (Sym.syl k)
+  nonPhrase : iv.isPhrase = false → ∃ i cp, c.symbols[i]? = some (Sym.chr cp) ∧
+    iv = { start := i, stop := i + 1, isPhrase := false, text := [cp] }
 
 /-- per-interval invariant that needs `WellFormed d` and valid selections -/
 structure IvInv2 (c : Composition) (iv : Interval) : Prop where
@@ -134,12 +136,13 @@ theorem edge_inv1 {d : Dict} {strat : Strategy} {c : Composition} {e : Edge} (h 
     subst hph
     have ht := slice_singleton_stop hs hle
     subst ht
-    refine ⟨?_, hle, hnb, hsc, ?_⟩
+    refine ⟨?_, hle, hnb, hsc, ?_, ?_⟩
     · exact Prov.chr (slice_singleton hs).2
     · intro hp; simp [toInterval] at hp
+    · intro _; exact ⟨s, cp, (slice_singleton hs).2, rfl⟩
   · simp only at hph hall hsrc
     subst hph
-    refine ⟨?_, hle, hnb, hsc, fun _ => allSyl_index hall hle⟩
+    refine ⟨?_, hle, hnb, hsc, fun _ => allSyl_index hall hle, fun hp => by simp [toInterval] at hp⟩
     rcases hsrc with ⟨hl, _⟩ | ⟨x, hx, h1, h2, hp⟩
     · exact Prov.dict hlt hle hall hl
     · subst hp
@@ -154,7 +157,7 @@ theorem inv1_merge {d : Dict} {strat : Strategy} {c : Composition} (a b : Interv
   obtain ⟨bs, be, bp, bt⟩ := b
   simp only at pa pb hg hm la lb
   subst pa pb hm
-  refine ⟨Prov.glue ha.prov hb.prov hg, hb.le, ?_, ?_, ?_⟩
+  refine ⟨Prov.glue ha.prov hb.prov hg, hb.le, ?_, ?_, ?_, fun hp => by simp at hp⟩
   · intro i h1 h2
     simp only at h1 h2
     rcases Nat.lt_trichotomy i ae with h | h | h
